@@ -269,6 +269,9 @@ def unsafe_rule(rep, db):
                 ok = any(f['id'].startswith(a) and b in path for a, b in UNSAFE_ALLOWED)
                 if not ok and 'fmt::Arguments' in path and any('format_args' in m or 'format' in m or 'write' in m or 'panic' in m or 'assert' in m for m in macros):
                     ok = True       # emitted by the format_args! expansion of std, not written in the crate
+                if not ok and 'thread::local_impl::' in path and any('thread_local' in m for m in macros) and any(
+                        'LocalKey<' in it['ty'] and f['id'].startswith(it['id'] + '::') for it in db.items.values()):
+                    ok = True       # accessor closure generated by std's thread_local! (lazy: get_or_init, `const { .. }` initialiser: EagerStorage::get), nested under the key
                 rep.ob('R-UNSAFE', '%s;calls-unsafe;%s' % (f['id'], path.rsplit('::', 1)[-1]), ok,
                        'call of unsafe fn %s outside the audited set (parser helpers, thread_local internals): undefined behaviour would make results depend on the optimisation level' % path,
                        site=span_str(blk.get('tspan')))
